@@ -20,7 +20,7 @@ THEOREMS = [(M, "NQ.C03." + n) for n in [
     "nonvacuous_exec",
     "source_operand_text_roundtrip", "replaceConstants_preserves_reserved", "reserved_not_scratch",
     "reserved_preserved", "F42_reserved_witness",
-    "assemble_pure", "assemble_twice", "imm_exempt",
+    "assemble_pure", "assemble_twice", "imm_exempt", "label_resolution_exact", "label_case_witness",
     "front_syms", "text_syms_ok", "parse_render_program", "parse_render_program_canon",
     "parse_render_with_macros", "text_assemble_simulates", "nonvacuous_text",
 ]]
@@ -148,6 +148,25 @@ MUTATION_CORPUS.append(
      {"m": "bez", "a": [], "o": [{"r": [0, 0]}, {"lab": "START"}]},
      {"m": "bne", "a": [], "o": [{"r": [0, 0]}, {"i": 1}, {"lab": "A"}]}, {"m": "ret_reg", "a": [], "o": [{"r": [0, 0]}]}])
 
+# label NAMES: resolution is exact string equality with the definition of that very name
+# (seeded change C03_15: case-insensitive match, first match wins)
+def _br(lab):
+    return {"m": "bez", "a": [], "o": [{"r": [0, 0]}, {"lab": lab}]}
+
+
+MUTATION_CORPUS.append(
+    [{"m": "set", "a": [], "o": [{"r": [0, 0]}, {"i": 0}]}, {"l": "retry"},
+     {"m": "add", "a": [], "o": [{"r": [0, 1]}, {"r": [0, 0]}, {"i": 1}]}, {"l": "RETRY"},
+     {"m": "add", "a": [], "o": [{"r": [0, 2]}, {"r": [0, 0]}, {"i": 2}]}, _br("RETRY"), _br("retry"),
+     {"m": "ret_reg", "a": [], "o": [{"r": [0, 2]}]}])
+MUTATION_CORPUS.append(
+    [_br("L10"), {"l": "L"}, {"m": "set", "a": [], "o": [{"r": [0, 0]}, {"i": 1}]}, {"l": "L1"},
+     {"m": "set", "a": [], "o": [{"r": [0, 1]}, {"i": 2}]}, {"l": "L10"}, _br("L1"), _br("L"), {"l": "l10"}, _br("l10")])
+MUTATION_CORPUS.append(
+    [{"l": "set"}, {"l": "R1"}, {"m": "set", "a": [], "o": [{"r": [0, 1]}, {"i": 0}]}, {"l": "x" * 300},
+     {"m": "bnz", "a": [], "o": [{"r": [0, 1]}, {"lab": "R1"}]}, {"m": "bnz", "a": [], "o": [{"r": [0, 1]}, {"lab": "set"}]},
+     {"m": "bnz", "a": [], "o": [{"r": [0, 1]}, {"lab": "x" * 300}]}, {"l": "X" * 300}])
+
 # (program, reserved registers): `assemble_subroutine(reserved_registers=…)`, the fix of F42
 RESERVED_CORPUS = [
     ([{"m": "store", "a": [], "o": [{"i": 7}, {"e": [0, {"r": [0, 1]}]}]}], [[0, 0]]),
@@ -193,6 +212,11 @@ ALIAS_CORPUS = [
 
 
 FRONT_CORPUS = [
+    "retry:\nset R0 1\nRETRY:\nset R1 2\njmp RETRY\njmp retry\n",   # labels differing only in case
+    "L:\nL1:\nset R0 1\nL10:\njmp L1\njmp L10\njmp L\n",
+    "set:\njmp set\nSET:\njmp SET\n",                                  # a label named like a mnemonic
+    "R1:\njmp R1\n",                                                    # …like a register: the operand IS the register
+
     "# NETQASM 1.0\n# APPID 0\nset R0 1\n",
     "set R0 1\n# APPID 0\n",                          # preamble after the body
     "#\nset R0 1\n",                                   # a lone preamble marker
@@ -371,7 +395,8 @@ def run(ctx):
         res.failures.append({"what": "a macro use is replaced by a macro whose key is a prefix of its name", "kf": None,
                              "input": {"text": f4_text, "parsed": H.real_parse_proto(f4_text), "expected": f4_want}})
     for _ in range(n_text):
-        p = H.gen_std_program(rng, max_len=10) if rng.random() < 0.7 else H.gen_wild_program(rng, max_len=8)
+        p = (H.gen_std_program(rng, max_len=10, text_safe=True) if rng.random() < 0.7
+             else H.gen_wild_program(rng, max_len=8, text_safe=True))
         p = [c for c in p if not any("t" in o for o in c.get("o", []))]
         if not p:
             continue
@@ -418,7 +443,8 @@ def run(ctx):
     # whole front end: `parse_text_protosubroutine` vs the model `AsmFront.parseTextProto`
     front_texts = []
     for _ in range(n_text // 2):
-        p = H.gen_std_program(rng, max_len=8) if rng.random() < 0.7 else H.gen_wild_program(rng, max_len=6)
+        p = (H.gen_std_program(rng, max_len=8, text_safe=True) if rng.random() < 0.7
+             else H.gen_wild_program(rng, max_len=6, text_safe=True))
         wild = rng.random() < 0.35
         if not wild:
             p = [c for c in p if not any("t" in o for o in c.get("o", []))]
